@@ -490,6 +490,48 @@ let gen_case (toks : string list) : string =
           (match gen_marshal sc tyi v with
            | MErr -> "merr" | MPanic -> "panic"
            | MBytes b -> string_of_int sz ^ " " ^ hex_of_ints (canon_msg sc (int_of_string ty) (ints_of_bytes b)))))
+  | [op; schema; ty; input] when String.length op >= 2 && String.sub op 0 2 = "LG" ->
+    let sc = parse_schema schema in
+    let tyi = nat_of_int (int_of_string ty) in
+    let p = bytes_of_hex input in
+    let fuel = nat_of_int (List.length p + 2) in
+    (if legal_msg sc fuel tyi p then "legal" else "illegal") ^ " " ^ (if no_dup_msgs sc fuel tyi p then "nodup" else "dup")
+  | [op; pm; prefix; forest] when String.length op >= 2 && String.sub op 0 2 = "NM" ->
+    (* forest syntax: Name(Kid,Kid(Kid)),Name  or - *)
+    let codes (x : string) : n list = List.map (fun c -> n_of_int (Char.code c)) (List.of_seq (String.to_seq x)) in
+    let pos = ref 0 in
+    let peek () = if !pos < String.length forest then forest.[!pos] else '$' in
+    let rec nodes () : mnode list =
+      let acc = ref [] in
+      let continue = ref true in
+      while !continue do
+        let st = !pos in
+        while (match peek () with '(' | ')' | ',' | '$' -> false | _ -> true) do incr pos done;
+        let name = String.sub forest st (!pos - st) in
+        let kids = if peek () = '(' then (incr pos; let k = nodes () in incr pos; k) else [] in
+        acc := MNode (codes name, kids) :: !acc;
+        if peek () = ',' then incr pos else continue := false
+      done;
+      List.rev !acc in
+    let forest_v = if forest = "-" then [] else nodes () in
+    let names = out_names (codes prefix) (pm = "1") forest_v in
+    String.concat " " (List.map (fun l -> String.concat "" (List.map (fun c -> String.make 1 (Char.chr (int_of_n c))) l)) names)
+  | "OP" :: [param] ->
+    (* name=value,... (paths= is protogen's own); accepted iff every parameter is accepted *)
+    let codes (x : string) : n list = List.map (fun c -> n_of_int (Char.code c)) (List.of_seq (String.to_seq x)) in
+    let ok = List.fold_left (fun acc kv ->
+      match acc with None -> None | Some o ->
+        (match split '=' kv with
+         | [k; v] ->
+           (match k with
+            | "paths" -> Some o
+            | "apiversion" -> apply_opt o KApi (codes v)
+            | "filepermessage" -> apply_opt o KPerMsg (codes v)
+            | "enableunsafedecode" -> apply_opt o KUnsafe (codes v)
+            | "specialname" -> apply_opt o KSpecial (codes v)
+            | _ -> apply_opt o KOtherKey (codes v))
+         | _ -> None)) (Some default_opts) (split ',' param) in
+    (match ok with Some _ -> "accepted" | None -> "rejected")
   | _ -> failwith "bad gen case"
 
 let dispatch (line : string) : string =
